@@ -81,13 +81,16 @@ func ruleLeaveComplete(r *Run) {
 			hdOK = r.P.Canon(path.Events[iHD].Fn, path.Events[iHD].Recv) == "rangeval(recv.Modules)" && path.Events[iHD].Loop
 		}
 		// the path that iterates zero modules is the empty-module configuration; require the loop to exist
-		hasModLoop := false
+		hasModLoop, iterated := false, false
 		for _, ev := range path.Events {
 			if ev.Kind == EvGuard && ev.GKind == GRange {
 				if ev.Over != nil && r.P.Canon(ev.Fn, ev.Over) == "recv.Modules" {
 					hasModLoop = true
-					if !ev.Val && iHD < 0 {
-						hdOK = true // zero modules loaded
+					if ev.Val {
+						iterated = true
+					}
+					if !ev.Val && iHD < 0 && !iterated {
+						hdOK = true // zero modules loaded: the loop body is not entered on this path
 					}
 				}
 			}
